@@ -253,7 +253,9 @@ def _seed_job(ref: ObjectRef, attempt: int):
         return
     import numpy as np
 
-    np.random.seed((STATE.job_seed * 1000003 + ref.submit_no * 7919 + attempt * 104729) % (2**32))
+    # a re-executed (retried) job gets the same stream again: results then stay comparable across
+    # schedules, and the retry exposes only duplicated side effects (KVS pushes, shared state)
+    np.random.seed((STATE.job_seed * 1000003 + ref.submit_no * 7919) % (2**32))
 
 
 def _execute(ref: ObjectRef):
